@@ -134,6 +134,8 @@ func Gen(t *tape.Tape, base string, o Opts) *Layout {
 		}
 		top.Content = top.render()
 		l.Files = append(l.Files, leaf, mid, top)
+		// what `/nleaf` would mean if the nested root were mistaken for the outer one
+		l.Secrets[l.Top+"/nleaf.arrai"] = `"SECRET-MARKER-7"`
 	}
 	// mains: arrai files, preferring late ones (they import the most)
 	var arrai []*File
